@@ -24,7 +24,8 @@
  *   no-con-in-6, non-in-con-mode, con-in-non-always-mode
  *   stale-last-state:<op>      quiescent, still registered, newest notification older than the last change
  *   missed-notification:<op> / dup-entry:<op>   a fault free change produced 0 / more than 1 notification
- *   subscriber-count:extra|missing:<op>         resource->subscribers disagrees with the reference
+ *   subscriber-count:extra|missing:<op>         resource->subscribers disagrees with the reference at the very end
+ *                                               (cross-check, only when the wire checks found nothing)
  *   session-reclaimed-with-observers
  *   client:foreign-token       (lc family) the client's response handler got a token it never used
  * <op> is "rereg" when the entry had been re-registered, else the kind of the last script operation.
@@ -250,6 +251,11 @@ report(int v, const struct ro_reg *reg, const struct w_msg *m, int o, uint32_t o
   case RO_V_NOT_INCREASING:
     snprintf(sig, sizeof sig, "observe-not-increasing:%s", blame(reg));
     vx_fail(sig, "%s: notification mid=%04x Observe %u is not newer (RFC 7641 3.4) than an earlier one", regstr(reg), m->mid, obsval);
+    return;
+  case RO_V_EQUALS_REG_RESPONSE:
+    vx_fail("observe-not-increasing:equals-earlier-reg-response",
+            "%s: notification mid=%04x carries Observe %u, the same number as the response to a (re-)registration request that was answered "
+            "after the change was signalled and before the notification left", regstr(reg), m->mid, obsval);
     return;
   case RO_V_REG_RESPONSE_OLDER:
     vx_fail("observe-regresses:reg-response", "%s: registration response Observe %u is older than an earlier notification's",
@@ -815,7 +821,6 @@ probe_round(int k) {
     }
   }
   check_fresh(when);
-  check_subscribers(when);
 }
 
 /* ------------------------------------------------------------------------------------------ */
@@ -876,7 +881,6 @@ run(void *arg) {
   run_quiet(1, 100000);
   check_fresh("quiescent after the script");
   check_sessions("quiescent after the script");
-  check_subscribers("quiescent after the script");
 
   /* phase 2: everything idle for longer than the session timeout, then a stranger shows up while at most one
    * idle session may be kept */
@@ -901,6 +905,7 @@ run(void *arg) {
   for (int k = 1; k <= rounds && !vx_failed(); k++)
     probe_round(k);
   check_sessions("after the probes");
+  check_subscribers("after the probes");
   if (total_steps >= 1500)
     vx_fail("horizon:steps", "scenario did not become quiescent within 1500 events");
 
